@@ -209,6 +209,7 @@ def resolveBind (bind : Bnd) : Ty → Ty
   | .generic a => match bind.get a with | some t => t | none => .generic a
   | .tuple ts => .tuple (resolveList bind ts)
   | .compound k n as => .compound k n (resolveList bind as)
+  | .callable ps r => .callable (resolveList bind ps) (resolveBind bind r)
   | t => t
 def resolveList (bind : Bnd) : List Ty → List Ty
   | [] => []
@@ -311,14 +312,20 @@ def fillUnbound (args : List Ty) (b : Bnd) : List String → Bnd
 def rtypeForCall (gens : Option (List String)) (ret : Ty) (b : Bnd) (args : List Ty) : Ty :=
   resolveBind (fillUnbound args b (gens.getD [])) ret
 
+/-- arguments against the parameter types of an `XCallable` callee: each must be assignable without binding
+anything (generic parameters in the type of a function-typed value are rigid) -/
+def callableArgs : List Ty → List Ty → Bool
+  | p :: ps, a :: as =>
+    (match bindIn p a with
+     | some b => b.isEmpty
+     | none => false) && callableArgs ps as
+  | _, _ => true
+
 def typeOfCall (callee : Ty) (args : List Ty) : Except CallErr Ty :=
   match callee with
   | .callable ps r =>
     if args.length != ps.length then .error .callableBindingFailed
-    else
-      match callBindLoop ps args [] with
-      | .error e => .error e
-      | .ok _ => .ok r
+    else if callableArgs ps args then .ok r else .error .invalidArgumentType
   | .func gens ps nreq r =>
     if args.length < nreq || args.length > ps.length then .error .callableBindingFailed
     else
